@@ -3,6 +3,7 @@ package spine
 import (
 	"fmt"
 
+	"github.com/enbility/ship-go/logging"
 	"github.com/enbility/spine-go/api"
 	"github.com/enbility/spine-go/model"
 )
@@ -300,7 +301,8 @@ func CreateFunctionData[F any](featureType model.FeatureTypeType) []F {
 	}
 
 	if len(result) == 0 {
-		panic(fmt.Errorf("unknown featureType '%s'", featureType))
+		// a remote device may announce a feature type this stack has no function data for
+		logging.Log().Errorf("no function data available for featureType '%s'", featureType)
 	}
 
 	return result
